@@ -1,9 +1,210 @@
-(* C05 - pedigree phasing is Mendelian-consistent and ordered paternal|maternal (stub, being filled) *)
+(* C05 - pedigree phasing is Mendelian-consistent and ordered paternal|maternal.
+   Only the property theorems (each closed by `exact`), their assumption printouts and non-vacuity
+   examples.  Model: WH.Model.Mendel (PedigreePartitions, the allowed-assignment filter and
+   get_alleles of PedigreeColumnCostComputer, mendelian_conflict, find_mendelian_conflicts /
+   find_phaseable_variants, accessible positions, PhasedVcfWriter per call).  The dynamic program's
+   choice of transmission value t and bipartition (partition costs cp) per column is universally
+   quantified everywhere.  wf_ped n ts rk = acyclic pedigree with topological numbering rk, every
+   individual child of at most one triple; triples are (father, mother, child). *)
 From Coq Require Import ZArith NArith List Bool Arith.
 From WH.Model Require Import Mendel.
 From WH.Proofs Require Import MendelProofs.
 Import ListNotations.
 
-Theorem C05_stub : forall (A : Type) (p : A * A) b, sel p (negb (negb b)) = sel p b.
-Proof. exact sel_negb_involutive. Qed.
-Print Assumptions C05_stub.
+(* Mechanism: the child's haplotype 0 shares its partition with the father's haplotype [!(bit 2k of t)],
+   its haplotype 1 with the mother's haplotype [!(bit 2k+1)]; the recursion terminates (fuel = number of
+   individuals suffices) for every acyclic pedigree, every transmission value, every individual order. *)
+Theorem C05_child_shares_partition : forall n ts rk, wf_ped n ts rk ->
+  forall (t : N) k tr, nth_error ts k = Some tr ->
+  exists pf pm,
+    h2p n ts t (tr_father tr) = Some pf /\
+    h2p n ts t (tr_mother tr) = Some pm /\
+    h2p n ts t (tr_child tr) = Some (sel pf (negb (tbit t (2 * k))), sel pm (negb (tbit t (2 * k + 1)))).
+Proof. exact child_shares_partition. Qed.
+Print Assumptions C05_child_shares_partition.
+
+(* child_alleles_from_parents: for every transmission value t and every allele assignment a allowed by
+   the trusted-genotype filter, the child's alleles (on haplotype 0, on haplotype 1) are (the father's
+   allele on the haplotype selected by bit 2k, the mother's allele on the one selected by bit 2k+1);
+   hence the first is among the father's genotype alleles, the second among the mother's, and together
+   they reproduce the child's genotype: the written a|b is paternal|maternal. *)
+Theorem C05_child_alleles_from_parents : forall n ts rk, wf_ped n ts rk ->
+  forall (t : N) gs a k tr,
+  In a (allowed n ts t gs) -> nth_error ts k = Some tr ->
+  let al := alle (h2p n ts t) (abit a) in
+  al (tr_child tr) false = al (tr_father tr) (negb (tbit t (2 * k))) /\
+  al (tr_child tr) true = al (tr_mother tr) (negb (tbit t (2 * k + 1))) /\
+  In (b2z (al (tr_child tr) false)) (gof gs (tr_father tr)) /\
+  In (b2z (al (tr_child tr) true)) (gof gs (tr_mother tr)) /\
+  geno_of (al (tr_child tr) false) (al (tr_child tr) true) = gof gs (tr_child tr).
+Proof. exact child_alleles_from_parents. Qed.
+Print Assumptions C05_child_alleles_from_parents.
+
+(* transmission_consistent: whatever transmission value and partition costs the DP settles on, the
+   super-read alleles returned by get_alleles (ties = 3 included) satisfy the Mendelian predicate that the
+   harness evaluates on the implementation's super-reads: a non-tie child allele is 0/1, lies in the
+   parent's genotype and equals the parent's non-tie allele on the haplotype selected by t; non-tie
+   pairs reproduce the genotype. *)
+Theorem C05_transmission_consistent : forall n ts rk, wf_ped n ts rk ->
+  forall t cp gs l, get_alleles n ts t cp gs = Alleles l -> sr_column_ok n ts gs t l = true.
+Proof. exact get_alleles_mendelian. Qed.
+Print Assumptions C05_transmission_consistent.
+
+(* conflict_iff_no_assignment (any acyclic pedigree, diploid bi-allelic genotypes): some transmission
+   value has an allowed assignment iff no triple has a Mendelian conflict ... *)
+Theorem C05_conflict_iff_no_assignment : forall n ts rk gs, wf_ped n ts rk ->
+  (forall i, i < n -> g_dipbi (gof gs i) = true) ->
+  ((exists t a, N.to_nat t < 4 ^ length ts /\ In a (allowed n ts t gs)) <-> col_conflict ts gs = false).
+Proof. exact conflict_iff_no_assignment. Qed.
+Print Assumptions C05_conflict_iff_no_assignment.
+
+(* ... in the trio form of the statement: mendelian_conflict gm gf gc = true iff no transmission value
+   has an allowed assignment (for a trio placed anywhere among n individuals) ... *)
+Theorem C05_trio_conflict_iff : forall n f m c rk gs, wf_ped n [(f, m, c)] rk ->
+  (forall i, i < n -> g_dipbi (gof gs i) = true) ->
+  (mendelian_conflict (gof gs m) (gof gs f) (gof gs c) = true <-> forall t, allowed n [(f, m, c)] t gs = []).
+Proof. exact trio_conflict_iff. Qed.
+Print Assumptions C05_trio_conflict_iff.
+
+(* ... and the executable oracle evaluated on the implementation (does the column admit no assignment
+   for any transmission value?) is find_mendelian_conflicts' predicate. *)
+Theorem C05_no_assignment_is_conflict : forall n ts rk gs, wf_ped n ts rk ->
+  (forall i, i < n -> g_dipbi (gof gs i) = true) ->
+  no_assignment n ts gs = col_conflict ts gs.
+Proof. exact no_assignment_iff_conflict. Qed.
+Print Assumptions C05_no_assignment_is_conflict.
+
+(* After find_phaseable_variants the solver's "Mendelian conflict" exception is unreachable: a retained
+   row admits an assignment for some transmission value, and get_alleles raises exactly when the
+   transmission value it is given has none (costs below UINT_MAX). *)
+Theorem C05_retained_has_assignment : forall n ts rk ih gs, wf_ped n ts rk ->
+  (forall i, i < n -> g_none (gof gs i) = true \/ g_dipbi (gof gs i) = true) ->
+  retained n ts ih gs = true ->
+  exists t a, N.to_nat t < 4 ^ length ts /\ In a (allowed n ts t gs).
+Proof. exact retained_has_assignment. Qed.
+Print Assumptions C05_retained_has_assignment.
+
+Theorem C05_exception_iff_no_assignment : forall n ts rk, wf_ped n ts rk -> forall t cp gs,
+  (forall a, (0 <= acost (part_count n ts) cp a < UMAX)%Z) ->
+  (get_alleles n ts t cp gs = Conflict <-> allowed n ts t gs = []).
+Proof. exact get_alleles_conflict_iff. Qed.
+Print Assumptions C05_exception_iff_no_assignment.
+
+(* Conflicting / missing-genotype variants are removed before phasing: they are unphased in all members,
+   for every read coverage, transmission value, costs, with or without genetic haplotyping. *)
+Theorem C05_removed_rows_unphased : forall n ts ih genetic gs covered t cp,
+  col_missing n gs || col_conflict ts gs = true ->
+  phase_column n ts ih genetic gs covered t cp = Some (map (fun _ => None) (seq 0 n)).
+Proof. exact removed_rows_unphased. Qed.
+Print Assumptions C05_removed_rows_unphased.
+
+(* forced_without_reads: child heterozygous and a parent homozygous => for every transmission value and
+   ANY partition costs (column sum below 2^31 - 1), both child alleles are forced by admissibility and
+   not flagged as ties (|cost - (int)UINT_MAX| = cost + 1 <> 0) ... *)
+Theorem C05_forced_not_tie : forall n ts rk, wf_ped n ts rk -> forall t cp gs l k tr,
+  (forall a, (0 <= acost (part_count n ts) cp a < 2147483647)%Z) ->
+  get_alleles n ts t cp gs = Alleles l ->
+  nth_error ts k = Some tr ->
+  g_het (gof gs (tr_child tr)) = true ->
+  g_hom (gof gs (tr_father tr)) = true \/ g_hom (gof gs (tr_mother tr)) = true ->
+  nth_error l (tr_child tr) = Some (b2z (forced_paternal gs tr), b2z (negb (forced_paternal gs tr))).
+Proof. exact forced_not_tie. Qed.
+Print Assumptions C05_forced_not_tie.
+
+(* ... in particular in a column without any read. *)
+Theorem C05_forced_without_reads : forall n ts rk, wf_ped n ts rk -> forall t gs l k tr,
+  get_alleles n ts t (cost_partition n ts t []) gs = Alleles l ->
+  nth_error ts k = Some tr ->
+  g_het (gof gs (tr_child tr)) = true ->
+  g_hom (gof gs (tr_father tr)) = true \/ g_hom (gof gs (tr_mother tr)) = true ->
+  nth_error l (tr_child tr) = Some (b2z (forced_paternal gs tr), b2z (negb (forced_paternal gs tr))).
+Proof. exact forced_without_reads. Qed.
+Print Assumptions C05_forced_without_reads.
+
+(* The property for one variant of one family through row removal, solver column and writer: whatever
+   is written (all members carry the same phase-set id ps) satisfies the predicate c05_variant_ok that
+   the harness evaluates on the real input genotypes / output calls / traced transmission value:
+   every phased child a|b has a in the father's and b in the mother's genotype; where a parent is phased
+   too, the child's allele is the parent's allele on the haplotype selected by t; conflicting or missing
+   variants are unphased in all members; with genetic haplotyping a heterozygous child with a
+   homozygous parent is phased whether or not a read covers the variant. *)
+Theorem C05_phase_column_ok : forall n ts rk, wf_ped n ts rk ->
+  forall genetic gs covered t cp ws ps,
+  (forall a, (0 <= acost (part_count n ts) cp a < 2147483647)%Z) ->
+  phase_column n ts false genetic gs covered t cp = Some ws ->
+  c05_variant_ok n ts genetic gs (with_ps ps ws)
+                 (if accessible n ts false genetic gs covered then Some t else None) = true.
+Proof. exact phase_column_ok. Qed.
+Print Assumptions C05_phase_column_ok.
+
+(* a column without reads satisfies the cost hypothesis *)
+Theorem C05_no_reads_cost_zero : forall n ts t a,
+  acost (part_count n ts) (cost_partition n ts t []) a = 0%Z.
+Proof. exact acost_no_reads. Qed.
+Print Assumptions C05_no_reads_cost_zero.
+
+(* the executable well-formedness check implies wf_ped *)
+Theorem C05_wf_check_sound : forall n ts rk, wf_pedb n ts rk = true -> wf_ped n ts rk.
+Proof. exact wf_pedb_sound. Qed.
+Print Assumptions C05_wf_check_sound.
+
+(* ---------------------------------------------------------------------------------- non-vacuity *)
+(* a trio given child-first (index order is NOT topological): child 0, mother 1, father 2 *)
+Definition ex_rk (i : nat) : nat := match i with 0 => 2 | 1 => 0 | _ => 1 end.
+Example C05_ex_trio_wf : wf_ped 3 [(2, 1, 0)] ex_rk.
+Proof. apply wf_pedb_sound. vm_compute. reflexivity. Qed.
+
+(* a quartet (two children 3 and 0 of father 1 and mother 4) plus an unrelated individual 2 *)
+Definition ex_rk4 (i : nat) : nat := match i with 1 => 0 | 4 => 1 | 2 => 2 | 3 => 3 | _ => 4 end.
+Example C05_ex_quartet_wf : wf_ped 5 [(1, 4, 3); (1, 4, 0)] ex_rk4.
+Proof. apply wf_pedb_sound. vm_compute. reflexivity. Qed.
+
+(* three generations: grandparents 0,1 -> parent 2; 2 and 3 -> child 4 *)
+Example C05_ex_threegen_wf : wf_ped 5 [(0, 1, 2); (2, 3, 4)] (fun i => i).
+Proof. apply wf_pedb_sound. vm_compute. reflexivity. Qed.
+
+(* child 0/1, mother 0/0, father 0/1, transmission value 1, a father read (ALT, q30) and a child read
+   (REF, q30) on haplotype 0: the allowed assignments, the partition costs and the super-read alleles *)
+Example C05_ex_column :
+  allowed 3 [(2, 1, 0)] 1%N [[1; 0]; [0; 0]; [1; 0]]%Z = [4%N] /\
+  get_alleles 3 [(2, 1, 0)] 1%N (cost_partition 3 [(2, 1, 0)] 1%N [(2, false, 1%Z, 30%Z); (0, false, 0%Z, 30%Z)])
+              [[1; 0]; [0; 0]; [1; 0]]%Z
+  = Alleles [(1, 0); (0, 0); (1, 0)]%Z.
+Proof. vm_compute. split; reflexivity. Qed.
+
+(* forced without reads: child 0/1, mother 0/1, father 1/1, no read: the child is 1|0, the mother is
+   phased relative to the transmission value, the homozygous father is not written as phased *)
+Example C05_ex_forced :
+  g_het (gof [[1; 0]; [1; 0]; [1; 1]]%Z 0) = true /\ g_hom (gof [[1; 0]; [1; 0]; [1; 1]]%Z 2) = true /\
+  phase_column 3 [(2, 1, 0)] false true [[1; 0]; [1; 0]; [1; 1]]%Z false 1%N
+               (cost_partition 3 [(2, 1, 0)] 1%N [])
+  = Some [Some (1, 0); Some (1, 0); None]%Z.
+Proof. vm_compute. repeat split; reflexivity. Qed.
+
+(* both parents heterozygous, no read: nothing is forced, the child's alleles are ties and it stays unphased *)
+Example C05_ex_not_forced :
+  get_alleles 3 [(2, 1, 0)] 0%N (cost_partition 3 [(2, 1, 0)] 0%N []) [[1; 0]; [1; 0]; [1; 0]]%Z
+  = Alleles [(3, 3); (3, 3); (3, 3)]%Z.
+Proof. vm_compute. reflexivity. Qed.
+
+(* a conflicting column (both parents 0/0, child 1/1): conflict, no assignment for any transmission
+   value, the solver column raises, the pipeline leaves everybody unphased; and a consistent column *)
+Example C05_ex_conflict :
+  col_conflict [(2, 1, 0)] [[1; 1]; [0; 0]; [0; 0]]%Z = true /\
+  no_assignment 3 [(2, 1, 0)] [[1; 1]; [0; 0]; [0; 0]]%Z = true /\
+  get_alleles 3 [(2, 1, 0)] 2%N [] [[1; 1]; [0; 0]; [0; 0]]%Z = Conflict /\
+  phase_column 3 [(2, 1, 0)] false true [[1; 1]; [0; 0]; [0; 0]]%Z true 2%N [] = Some [None; None; None] /\
+  col_conflict [(2, 1, 0)] [[1; 0]; [0; 0]; [1; 0]]%Z = false /\
+  no_assignment 3 [(2, 1, 0)] [[1; 0]; [0; 0]; [1; 0]]%Z = false.
+Proof. vm_compute. repeat split; reflexivity. Qed.
+
+(* the spec-side predicate is not trivially true: a child written maternal|paternal is rejected *)
+Example C05_ex_spec_rejects :
+  c05_variant_ok 3 [(2, 1, 0)] true [[1; 0]; [0; 0]; [1; 1]]%Z [Some (0, 1, 7); None; None]%Z (Some 0%N) = false /\
+  c05_variant_ok 3 [(2, 1, 0)] true [[1; 0]; [0; 0]; [1; 1]]%Z [Some (1, 0, 7); None; None]%Z (Some 0%N) = true /\
+  (* transmission mismatch: father phased 1|0 in the same set, bit 0 of t = 0 selects his haplotype 1 *)
+  c05_variant_ok 3 [(2, 1, 0)] false [[1; 0]; [0; 0]; [1; 0]]%Z [Some (1, 0, 7); None; Some (1, 0, 7)]%Z (Some 0%N) = false /\
+  c05_variant_ok 3 [(2, 1, 0)] false [[1; 0]; [0; 0]; [1; 0]]%Z [Some (1, 0, 7); None; Some (1, 0, 7)]%Z (Some 1%N) = true /\
+  (* forced but unphased under genetic haplotyping *)
+  c05_variant_ok 3 [(2, 1, 0)] true [[1; 0]; [0; 0]; [1; 0]]%Z [None; None; None] None = false.
+Proof. vm_compute. repeat split; reflexivity. Qed.
